@@ -489,6 +489,7 @@ func init() {
 			ld := r.Need(c.Fn(c.W, "load"), "load")
 			if ld != nil {
 				found := false
+				localOneSep, localAppends := false, 0
 				var flagsField ast.Expr
 				ld.inspect(ld.Decl.Body, func(nd ast.Node) bool {
 					kv, ok := nd.(*ast.KeyValueExpr)
@@ -514,11 +515,12 @@ func init() {
 											okV = true
 										}
 									case "opassign":
-										as := d.node.(*ast.AssignStmt)
-										be, isB := ast.Unparen(d.rhs).(*ast.BinaryExpr)
-										if as.Tok != token.ADD_ASSIGN || !isB || be.Op != token.ADD || types.ExprString(be.X) != `" "` {
+										ext, one := tagAppend(ld, d.node.(*ast.AssignStmt))
+										if !ext {
 											okV = false
 										}
+										localOneSep = localOneSep || one
+										localAppends++
 									default:
 										okV = false
 									}
@@ -533,6 +535,9 @@ func init() {
 					return true
 				})
 				r.Check(found, "load/tags-include-wireinject", ld.Decl.Pos(), "BuildFlags is initialised with -tags=wireinject")
+				if localAppends > 0 {
+					r.Check(localOneSep, "load/tags-one-separator", ld.Decl.Pos(), "each user tag is appended after a comma, the list having been split on commas and spaces (the go tool rejects a list that mixes separators, which made the documented -tags a,b unusable)")
+				}
 				_ = flagsField
 				// later writes to BuildFlags only extend element 0 with += " " + tags
 				ld.inspect(ld.Decl.Body, func(nd ast.Node) bool {
@@ -546,26 +551,7 @@ func init() {
 							tgt = ix.X
 						}
 						if f := ld.selField(tgt); f != nil && f.Name() == "BuildFlags" {
-							okA := as.Tok == token.ADD_ASSIGN
-							oneSep := false
-							if okA {
-								be, isB := ast.Unparen(as.Rhs[0]).(*ast.BinaryExpr)
-								okA = isB && be.Op == token.ADD
-								if okA {
-									tv, isC := ld.Info.Types[be.X]
-									okA = isC && tv.Value != nil && (tv.Value.ExactString() == `","` || tv.Value.ExactString() == `" "`)
-									// one separator throughout: a comma, before each single tag of the user's list split on both separators
-									if okA && tv.Value.ExactString() == `","` {
-										if v := ld.varOf(be.Y); v != nil {
-											for _, d := range ld.defs[v] {
-												if d.kind == "range-val" && ld.isCall(d.rhs, "strings.FieldsFunc") != nil {
-													oneSep = true
-												}
-											}
-										}
-									}
-								}
-							}
+							okA, oneSep := tagAppend(ld, as)
 							r.Check(okA, "load/tags-only-extended", as.Pos(), "user tags are appended to the wireinject tag, never replacing it")
 							r.Check(oneSep, "load/tags-one-separator", as.Pos(), "each user tag is appended after a comma, the list having been split on commas and spaces (the go tool rejects a list that mixes separators, which made the documented -tags a,b unusable)")
 						}
@@ -1122,4 +1108,32 @@ func (fi *FuncInfo) isBuiltin0(n ast.Node, name string) *ast.CallExpr {
 		return fi.isBuiltin(e, name)
 	}
 	return nil
+}
+
+// tagAppend classifies `x += sep + y`: ext reports that x is only extended
+// (sep is "," or " "); one reports the form that keeps one separator
+// throughout — a comma before each element of the user's list split with
+// strings.FieldsFunc.
+func tagAppend(ld *FuncInfo, as *ast.AssignStmt) (ext, one bool) {
+	if as.Tok != token.ADD_ASSIGN || len(as.Rhs) != 1 {
+		return false, false
+	}
+	be, isB := ast.Unparen(as.Rhs[0]).(*ast.BinaryExpr)
+	if !isB || be.Op != token.ADD {
+		return false, false
+	}
+	tv, isC := ld.Info.Types[be.X]
+	if !isC || tv.Value == nil || (tv.Value.ExactString() != `","` && tv.Value.ExactString() != `" "`) {
+		return false, false
+	}
+	if tv.Value.ExactString() == `","` {
+		if v := ld.varOf(be.Y); v != nil {
+			for _, d := range ld.defs[v] {
+				if d.kind == "range-val" && ld.isCall(d.rhs, "strings.FieldsFunc") != nil {
+					one = true
+				}
+			}
+		}
+	}
+	return true, one
 }
